@@ -127,6 +127,26 @@ def inv(st, broken=None):
                   z3.Implies(b, z3.ForAll([i], z3.Implies(z3.And(i >= served, i < issued), z3.Select(setf, i)))))
 
 
+def _lb_describe(m):
+    return {"schedule": "holder raises inside the critical section while one waiter is queued; then a later caller arrives (one run per kind of breaking exception)"}
+
+
+def _lb_replay(inputs):
+    from pyvc.check import native
+    r_ = native("lock_break_replay.py", {})
+    return bool(r_.get("confirmed")), r_
+
+
+def stored_exception(eng, st, kind, prefix):
+    """the exception that broke the lock is ANY exception object: one with a message, one constructed without arguments, and one whose
+    arguments are not strings (KeyError(5), OSError(2, 'No such file'))"""
+    if kind == "symexc":
+        return eng.new_symexc(st, prefix)
+    if kind == "noargs":
+        return st.alloc("exc:RuntimeError", {"args": ()})
+    return st.alloc("exc:KeyError", {"args": (fresh("int", prefix + "_arg"), fresh("str", prefix + "_arg2"))})
+
+
 def setup(chk, stored="symexc"):
     hooks = LockHooks()
     hooks.chk = chk
@@ -139,7 +159,7 @@ def setup(chk, stored="symexc"):
     broken = fresh("bool", "broken")
     lock = st.alloc(P.cls(OL), {"_lock": st.alloc("opaque:Lock", {}), "_waiters": st.alloc("tdeque", {"__kind__": "tdeque", "__truth__": lambda s_: s_len(s_) > 0}), "_is_broken": broken, "_exception": None})
     # the exception that broke the lock: any exception object, including one constructed without arguments
-    exc_obj = eng.new_symexc(st, "stored") if stored == "symexc" else st.alloc("exc:RuntimeError", {"args": ()})
+    exc_obj = stored_exception(eng, st, stored, "stored")
     st.setfield(lock, "_exception", mk_opt(z3.Not(broken.t), exc_obj))
     st.ghost["lock_ref"] = lock
     st.ghost["broken_of"] = lambda s: zbool(s.get(lock)["_is_broken"]) if not isinstance(s.get(lock)["_is_broken"], bool) else z3.BoolVal(s.get(lock)["_is_broken"])
@@ -173,6 +193,8 @@ def foreach_set_all(chk):
 
 
 def run(chk):
+    from .common import per_instance_state_of_modules
+    per_instance_state_of_modules(chk, "C19.classes.state_is_per_instance", ['threading'])   # no object created in a class body: instances share no mutable state through the class
     chk.assume("G: a `with self._lock:` block and a single Event call are atomic; threading.Lock gives mutual exclusion of those blocks; Event is level-triggered (a set before the wait is not lost)")
     chk.assume("protocol: release() / __exit__ are called only by the thread whose acquire() returned (the holder)")
     chk.assume("NOT DECIDED: fairness of threading.Lock, termination of critical sections (liveness)")
@@ -182,7 +204,7 @@ def run(chk):
     # ------------------------------------------------------------------ acquire: action A, wait, action B
     stored_kind = ["symexc"]
     P = Engine().program if False else None
-    for stored_kind[0] in ("symexc", "noargs"):
+    for stored_kind[0] in ("symexc", "noargs", "nonstr_args"):
         acquire_paths(chk, stored_kind)
     eng, st, lock = setup(chk)
     P = eng.program
@@ -209,7 +231,7 @@ def acquire_paths(chk, stored_kind):
         g["setf"] = z3.Array(fresh_name("setf"), z3.IntSort(), z3.BoolSort())
         nb = fresh("bool", "broken_after_wait")
         s.setfield(lock, "_is_broken", nb)
-        s.setfield(lock, "_exception", mk_opt(z3.Not(nb.t), eng_.new_symexc(s, "stored2") if stored_kind[0] == "symexc" else s.alloc("exc:RuntimeError", {"args": ()})))
+        s.setfield(lock, "_exception", mk_opt(z3.Not(nb.t), stored_exception(eng_, s, stored_kind[0], "stored2")))
         s.assume(inv(s))
         s.assume(z3.And(g["served"] >= served0, g["served"] <= my, g["issued"] > my))   # my ticket is still queued: only its holder pops a head
         s.assume(z3.Select(g["setf"], my))                                              # wait() returned: my event is set (level-triggered)
@@ -220,7 +242,7 @@ def acquire_paths(chk, stored_kind):
         if not waits:
             # refused in action A: only when broken
             chk.prove("C19.exit.breaks.future_acquirers", s.pc, z3.And(z3.BoolVal(k == "raise" and getattr(getattr(v, "cls", None), "name", "") == "OrderedLockError"), broken0, inv(s)),
-                      desc="a caller arriving after the lock was broken gets OrderedLockError immediately and changes nothing")
+                      desc="a caller arriving after the lock was broken gets OrderedLockError immediately and changes nothing", describe=_lb_describe, replay=_lb_replay)
             continue
         my = waits[0].ticket
         g = s.ghost
@@ -231,7 +253,7 @@ def acquire_paths(chk, stored_kind):
                       sample="acquire returns => ticket == served (head) by the invariant")
         else:
             chk.prove("C19.exit.breaks.current_waiters", s.pc, z3.And(z3.BoolVal(getattr(getattr(v, "cls", None), "name", "") == "OrderedLockError"), b_now),
-                      desc="a waiter woken after the lock was broken gets OrderedLockError instead of ownership")
+                      desc="a waiter woken after the lock was broken gets OrderedLockError instead of ownership", describe=_lb_describe, replay=_lb_replay)
 
 
 def rest_of_lock(chk, eng, st, lock, P):
@@ -274,7 +296,7 @@ def rest_of_lock(chk, eng, st, lock, P):
                               z3.BoolVal(len(sa) == 1 and sa[0].exc_at == exc))  # the exception a woken waiter will report is stored before the wake-up
                 chk.prove("C19.exit.breaks", s.pc, goal,
                           desc="leaving the critical section with ANY exception: __exit__ returns None (the holder sees its own exception), the lock is broken, every queued waiter's event is set, the exception is stored; invariant preserved",
-                          sample="__exit__ with an exception of arbitrary class")
+                          sample="__exit__ with an exception of arbitrary class", describe=_lb_describe, replay=_lb_replay)
             else:
                 chk.prove("C19.exit.normal_is_release", s.pc, z3.And(z3.BoolVal(k == "val" and v is None), b1 == b0, inv(s), g["served"] == g0["served"] + 1), desc="a normal exit is exactly a release")
     # ------------------------------------------------------------------ reset / is_broken
